@@ -744,7 +744,9 @@ def orc_fit_regress(case):
         Xk, Yk, n_eff = sb[:, keep], sy[:, keep], len(sample)
         kw = dict(pattern_idx=np.array(sample), pattern_descriptor='index')
     arg, S = _sigma(case.get('sigma', 'none'), n_eff, rs)
-    V0 = _spec_V(n_eff, np.eye(n_eff))[keep][:, keep]         # the fitters pool the data without sigma_k
+    # the training RDMs are pooled under the criterion's own metric V(sigma_k) (the oracle used to mirror the fitters' former
+    # behaviour of pooling without sigma_k -- an oracle error found when /repo commit 3a124530 repaired that defect, see C08 F1/F2)
+    V0 = _spec_V(n_eff, S if method.endswith('_cov') else np.eye(n_eff))[keep][:, keep]
     Vk = _spec_V(n_eff, S)[keep][:, keep] if method.endswith('_cov') else None
     y = _spec_pool(method, Yk, V0 if method.endswith('_cov') else None, 0.01)
     X = Xk
